@@ -65,9 +65,17 @@ def find_aliases(raw):
     cands = []
     for m, fm in missing.items():
         for e, fe in extra.items():
-            if fm['args'] != fe['args'] or fm['ret'] != fe['ret'] or fm['kind'] != fe['kind']:
+            if fm['ret'] != fe['ret'] or fm['kind'] != fe['kind'] or len(fm['args']) != len(fe['args']):
                 continue
             s = _sim(fm['callees'], fe['callees'])
+            if fm['args'] != fe['args']:
+                # parameter passing changed (a value instead of a reference, a derived quantity instead of the object): accepted
+                # only for a renamed sibling in the same place whose name shares a word with the old one
+                wa = set(re.split(r'[_:]+', m.rpartition('::')[2])) - {''}
+                wb = set(re.split(r'[_:]+', e.rpartition('::')[2])) - {''}
+                if m.rpartition('::')[0] != e.rpartition('::')[0] or len(wa & wb) < 2 or s < 0.2:
+                    continue
+                s = s + 0.5 if s < 0.5 else s
             # same enclosing path (module / type): a rename changes the last segment only; a move keeps the last segment;
             # renamed AND moved is accepted only for a near-identical body with real content (>= 3 calls, similarity >= 0.8)
             if m.rpartition('::')[0] != e.rpartition('::')[0] and m.rpartition('::')[2] != e.rpartition('::')[2]:
